@@ -334,12 +334,14 @@ pub open spec fn only_xy(e: SvgElement) -> bool {
 //@ ensures
 //@ - r.name == instance_element.name     @@C18.place.frame
 //@ - no_position(reuse_element) ==> r == instance_element     @@C18.place.no_position_keeps_template
-//@ - is_rectlike(instance_element.name@) && only_xy(reuse_element) && inst_el.content_bbox is None && instance_size is Some ==>
+//@ - is_rectlike(instance_element.name@) && only_xy(reuse_element) && instance_size is Some ==>
 //@       written(r.attrs@, "x"@, num(reuse_element.attrs@, "x"@)->Some_0) && written(r.attrs@, "y"@, num(reuse_element.attrs@, "y"@)->Some_0)     @@C18.place.rectlike
-//@ - instance_element.name@ == "circle"@ && only_xy(reuse_element) && inst_el.content_bbox is None && instance_size is Some ==>
+//@ - is_rectlike(instance_element.name@) && instance_element.name@ != "use"@ && only_xy(reuse_element) && instance_size is Some ==>
+//@       written(r.attrs@, "width"@, val(instance_size->Some_0.0)) && written(r.attrs@, "height"@, val(instance_size->Some_0.1))     @@C18.place.shape_size_is_its_own
+//@ - instance_element.name@ == "circle"@ && only_xy(reuse_element) && instance_size is Some ==>
 //@       written(r.attrs@, "cx"@, num(reuse_element.attrs@, "x"@)->Some_0 + val(instance_size->Some_0.0) / 2real)
 //@       && written(r.attrs@, "cy"@, num(reuse_element.attrs@, "y"@)->Some_0 + val(instance_size->Some_0.1) / 2real)     @@C18.place.circle
-//@ - instance_element.name@ == "g"@ && only_xy(reuse_element) && inst_el.content_bbox is Some ==> ({
+//@ - instance_element.name@ == "g"@ && only_xy(reuse_element) && inst_el.content_bbox is Some && instance_size is None ==> ({
 //@       let (x, y) = (num(reuse_element.attrs@, "x"@)->Some_0, num(reuse_element.attrs@, "y"@)->Some_0); let o = instance_element.attrs@;
 //@       (x != 0real || y != 0real) ==> r.attrs@ == o.insert("transform"@, if o.dom().contains("transform"@) { o["transform"@] + " "@ + translate_str(x, y) } else { translate_str(x, y) }) })     @@C18.place.group
 //@ - instance_element.name@ == "line"@ && num(reuse_element.attrs@, "x"@) is Some && num(reuse_element.attrs@, "y"@) is Some
